@@ -44,18 +44,25 @@ WHERE = DEST[0]
 FAMILY = socket.AF_INET
 # (text given to the query function, address tuple the socket layer reports for that peer, family, another host, same address in another scope)
 DESTS = [
-    ("192.0.2.53", ("192.0.2.53", 53), socket.AF_INET, ("198.51.100.7", 53), None),
-    ("2001:db8::53", ("2001:db8::53", 53, 0, 0), socket.AF_INET6, ("2001:db8::54", 53, 0, 0), None),
-    ("fe80::1%2", ("fe80::1", 53, 0, 2), socket.AF_INET6, ("fe80::2", 53, 0, 2), ("fe80::1", 53, 0, 3)),
+    ("192.0.2.53", ("192.0.2.53", 53), socket.AF_INET, ("198.51.100.7", 53), None, None),
+    ("2001:db8::53", ("2001:db8::53", 53, 0, 0), socket.AF_INET6, ("2001:db8::54", 53, 0, 0), None, None),
+    ("fe80::1%2", ("fe80::1", 53, 0, 2), socket.AF_INET6, ("fe80::2", 53, 0, 2), ("fe80::1", 53, 0, 3), None),
+    # multicast destinations (mDNS): the answer comes from some unicast host, so any source ADDRESS is right, the port is not free
+    ("224.0.0.251", ("224.0.0.251", 5353), socket.AF_INET, ("198.51.100.7", 5353), None, ("192.0.2.77", 5353)),
+    ("ff02::fb", ("ff02::fb", 5353, 0, 0), socket.AF_INET6, ("2001:db8::54", 5353, 0, 0), None, ("2001:db8::77", 5353, 0, 0)),
 ]
 OTHER_HOST = ("198.51.100.7", 53)
 OTHER_SCOPE = None
+REPLY_FROM = DEST
+MULTICAST = False
 
 
 def choose_destination(rng):
     """rebinds the module-level peer description used by the datagram builders and the scripted sockets"""
-    global DEST, WHERE, FAMILY, OTHER_HOST, OTHER_SCOPE
-    WHERE, DEST, FAMILY, OTHER_HOST, OTHER_SCOPE = rng.choice((DESTS[0], DESTS[0], DESTS[1], DESTS[2], DESTS[2]))
+    global DEST, WHERE, FAMILY, OTHER_HOST, OTHER_SCOPE, REPLY_FROM, MULTICAST
+    WHERE, DEST, FAMILY, OTHER_HOST, OTHER_SCOPE, responder = rng.choice((DESTS[0], DESTS[0], DESTS[1], DESTS[2], DESTS[2], DESTS[3], DESTS[4]))
+    MULTICAST = responder is not None
+    REPLY_FROM = responder if MULTICAST else DEST
 
 
 CATS = ["forged_addr", "forged_port", "forged_scope", "genuine_tc_short", "wrong_id", "wrong_question", "extra_question", "empty_question_noerror", "wrong_opcode", "qr_clear", "garbage", "garbage_tc", "genuine_tc", "genuine_trailing", "genuine_malformed_tail",
@@ -108,11 +115,11 @@ def response_wire(q, rng, answers=True, rcode=0, tc=False):
 def datagram(cat, q, rng):
     """returns (wire, from_address)"""
     if cat == "genuine":
-        return response_wire(q, rng), DEST
+        return response_wire(q, rng), REPLY_FROM
     if cat == "forged_addr":
         return response_wire(q, rng), OTHER_HOST
     if cat == "forged_port":
-        return response_wire(q, rng), (DEST[0], 5353) + tuple(DEST[2:])
+        return response_wire(q, rng), (REPLY_FROM[0], REPLY_FROM[1] + 1) + tuple(REPLY_FROM[2:])
     if cat == "forged_scope":
         # the same link-local address on another link is another host (only meaningful for a scoped destination)
         return response_wire(q, rng), (OTHER_SCOPE or OTHER_HOST)
@@ -120,14 +127,14 @@ def datagram(cat, q, rng):
         # the genuine reply, TC set, cut after the header or inside the question: all a receiver can tell is "truncated"
         w = response_wire(q, rng, answers=False, tc=True)
         qend = 12 + RN.wire_len(WW.walk(w)["questions"][0][0]) + 4
-        return w[:rng.choice((12, 13, qend - 5, qend - 1))] + b"", DEST
+        return w[:rng.choice((12, 13, qend - 5, qend - 1))] + b"", REPLY_FROM
     if cat == "wrong_id":
         w = bytearray(response_wire(q, rng))
         w[0:2] = struct.pack("!H", (q.id + rng.randint(1, 65535)) % 65536)
-        return bytes(w), DEST
+        return bytes(w), REPLY_FROM
     if cat == "wrong_question":
         q2 = dns.message.make_query("other.example.", "A", id=q.id)
-        return response_wire(q2, rng), DEST
+        return response_wire(q2, rng), REPLY_FROM
     if cat == "extra_question":
         w = bytearray(response_wire(q, rng, answers=False))
         # append a second question right after the first one and bump QDCOUNT (records after it keep their place)
@@ -135,34 +142,34 @@ def datagram(cat, q, rng):
         qend = 12 + RN.wire_len(walk["questions"][0][0]) + 4
         extra = b"\x05extra\x07invalid\x00" + struct.pack("!HH", 1, 1)
         w[4:6] = struct.pack("!H", 2)
-        return bytes(w[:qend]) + extra + bytes(w[qend:]), DEST
+        return bytes(w[:qend]) + extra + bytes(w[qend:]), REPLY_FROM
     if cat == "empty_question_noerror":
-        return struct.pack("!HHHHHH", q.id, 0x8000, 0, 0, 0, 0), DEST
+        return struct.pack("!HHHHHH", q.id, 0x8000, 0, 0, 0, 0), REPLY_FROM
     if cat == "wrong_opcode":
         w = bytearray(response_wire(q, rng))
         w[2] = (w[2] & 0x87) | (4 << 3)
-        return bytes(w), DEST
+        return bytes(w), REPLY_FROM
     if cat == "qr_clear":
         w = bytearray(response_wire(q, rng))
         w[2] &= 0x7F
-        return bytes(w), DEST
+        return bytes(w), REPLY_FROM
     if cat == "garbage":
         g = bytearray(rng.randrange(256) for _ in range(rng.choice((0, 3, 11, 12, 30))))
         if len(g) >= 3:
             g[2] &= ~0x02 & 0xFF  # TC clear, so that it cannot be taken for a truncated reply
-        return bytes(g), DEST
+        return bytes(g), REPLY_FROM
     if cat == "garbage_tc":
         # a spoofed, truncated-looking datagram: other id, TC set, counts promising records that are not there
-        return struct.pack("!HHHHHH", (q.id + 1) % 65536, 0x8200, 1, 3, 0, 0) + b"\x03bad\x00\x00\x01\x00\x01" + b"\xff\xff", DEST
+        return struct.pack("!HHHHHH", (q.id + 1) % 65536, 0x8200, 1, 3, 0, 0) + b"\x03bad\x00\x00\x01\x00\x01" + b"\xff\xff", REPLY_FROM
     if cat == "genuine_tc":
-        return response_wire(q, rng, answers=False, tc=True), DEST
+        return response_wire(q, rng, answers=False, tc=True), REPLY_FROM
     if cat == "genuine_trailing":
-        return response_wire(q, rng) + b"\x00trailing", DEST
+        return response_wire(q, rng) + b"\x00trailing", REPLY_FROM
     if cat == "genuine_malformed_tail":
         w = response_wire(q, rng)
-        return w[:-3], DEST  # header and question intact, last record cut short
+        return w[:-3], REPLY_FROM  # header and question intact, last record cut short
     if cat == "servfail_noq":
-        return struct.pack("!HHHHHH", q.id, 0x8002, 0, 0, 0, 0), DEST
+        return struct.pack("!HHHHHH", q.id, 0x8002, 0, 0, 0, 0), REPLY_FROM
     raise ValueError(cat)
 
 
@@ -194,13 +201,13 @@ def reference_udp(cats, opts):
             continue
         if cat == "expire":
             return ("timeout",)
-        if cat in ("forged_addr", "forged_port", "forged_scope"):
+        if cat in ("forged_addr", "forged_port", "forged_scope") and not (MULTICAST and cat != "forged_port"):
             if opts["ignore_unexpected"]:
                 continue
             return ("raise", "UnexpectedSource")
         # parse outcome
         err = None
-        is_resp = cat in ("genuine", "genuine_tc", "genuine_trailing", "genuine_malformed_tail", "servfail_noq")
+        is_resp = cat in ("genuine", "genuine_tc", "genuine_trailing", "genuine_malformed_tail", "servfail_noq") or (MULTICAST and cat in ("forged_addr", "forged_scope"))
         if cat == "garbage":
             err = "FormError"
         elif cat in ("garbage_tc", "genuine_tc_short"):
@@ -468,8 +475,8 @@ def check_udp(ctx, rng, is_async, cats=None, opts=None):
             ctx.violation(f"returned-message-not-among-received-datagrams:{mode}", "", case)
             return
         frm = events[idx][2]
-        if frm != DEST:
-            ctx.violation(f"returned-message-from-unexpected-source:{mode}:{cats[idx]}", f"{frm}", case)
+        if (frm != DEST) if not MULTICAST else (frm[1:] != DEST[1:]):
+            ctx.violation(f"returned-message-from-unexpected-source:{mode}:{cats[idx]}{':multicast' if MULTICAST else ''}", f"{frm}", case)
             return
         if cats[idx] in ("garbage", "garbage_tc", "genuine_tc_short", "genuine_malformed_tail", "wrong_id", "wrong_question", "extra_question", "empty_question_noerror", "wrong_opcode", "qr_clear") or (cats[idx] == "genuine_trailing" and not opts["ignore_trailing"]):
             ctx.violation(f"malformed-or-mismatched-datagram-returned:{mode}:{cats[idx]}:{'ignore_errors' if opts['ignore_errors'] else 'strict'}", f"cats {cats} opts {opts}; message errors {getattr(r, 'errors', None)}", case)
